@@ -500,6 +500,8 @@ func c06CloneReset(c *Ctx) {
 }
 
 // parallelLanes runs f for every lane index on all cores (each run has its own interpreter).
+// A panic inside a lane (a value the rule did not expect, e.g. an undecidable Top) is re-raised on the calling
+// goroutine after all lanes finished, where the driver turns it into an UNDECIDED obligation.
 func parallelLanes(w int, f func(idx int)) {
 	n := runtime.NumCPU()
 	if n > 16 {
@@ -507,12 +509,25 @@ func parallelLanes(w int, f func(idx int)) {
 	}
 	ch := make(chan int)
 	var wg sync.WaitGroup
+	var mu sync.Mutex
+	var failure interface{}
 	for k := 0; k < n; k++ {
 		wg.Add(1)
 		go func() {
 			defer wg.Done()
 			for idx := range ch {
-				f(idx)
+				func() {
+					defer func() {
+						if e := recover(); e != nil {
+							mu.Lock()
+							if failure == nil {
+								failure = fmt.Sprintf("lane %d: %v", idx, e)
+							}
+							mu.Unlock()
+						}
+					}()
+					f(idx)
+				}()
 			}
 		}()
 	}
@@ -521,4 +536,7 @@ func parallelLanes(w int, f func(idx int)) {
 	}
 	close(ch)
 	wg.Wait()
+	if failure != nil {
+		panic(failure)
+	}
 }
